@@ -132,6 +132,29 @@ type ccObs struct {
 	OpenConns int         `json:"open_conns"` // connections not closed by the client after the final Close
 	Stale     []string    `json:"stale,omitempty"`
 	Events    []string    `json:"events,omitempty"`
+	CloseHung bool        `json:"close_hung,omitempty"` // the final Client.Close() did not return within the call timeout
+}
+
+// ccCloseBounded runs Client.Close in a goroutine and gives up waiting after the call timeout: a Close that
+// does not return is an observation (hung), not a reason to hang the driver.
+func ccCloseBounded(cl interface{ Close() error }) (hung bool, panicked string) {
+	d := make(chan string, 1)
+	go func() {
+		defer func() {
+			if p := recover(); p != nil {
+				d <- fmt.Sprint(p)
+				return
+			}
+			d <- ""
+		}()
+		_ = cl.Close()
+	}()
+	select {
+	case p := <-d:
+		return false, p
+	case <-time.After(ccCallTimeout):
+		return true, ""
+	}
 }
 
 const ccCallTimeout = 2 * time.Second
@@ -247,10 +270,7 @@ func ccRun(sc ccScenario, keepEvents bool) (obs ccObs) {
 		w.ReleaseAll()
 		// a client the scenario has already closed must be clean without any further Close
 		if client != nil && !closedSoFar {
-			func() {
-				defer func() { _ = recover() }()
-				_ = client.Close()
-			}()
+			obs.CloseHung, _ = ccCloseBounded(client)
 		}
 		w.Settle(ccSettleTimeout)
 		obs.LeakRead, obs.LeakWrite = clisim.WaitClientGoroutines(base1, base2, 1*time.Second)
@@ -292,17 +312,14 @@ func ccRun(sc ccScenario, keepEvents bool) (obs ccObs) {
 		if st.Close {
 			closedSoFar = true
 			o := ccCallObs{IsClose: true, Res: ccROk}
-			func() {
-				defer func() {
-					if p := recover(); p != nil {
-						o.Res, o.Got = ccRPanic, fmt.Sprint(p)
-					}
-				}()
-				_ = client.Close()
-			}()
+			if hung, pk := ccCloseBounded(client); hung {
+				o.Res = ccRHang
+			} else if pk != "" {
+				o.Res, o.Got = ccRPanic, pk
+			}
 			o.Dials = w.Dials()
 			obs.Steps = append(obs.Steps, o)
-			if o.Res == ccRPanic {
+			if o.Res == ccRPanic || o.Res == ccRHang {
 				return obs
 			}
 			continue
